@@ -88,6 +88,7 @@ func runSeq(r *ev.Recorder, c *seqCase) (key, msg string, st stats) {
 	limit := uint64(1) << uint(c.H)
 	model := uint64(0)
 	var emitted []uint32
+	var held [][]byte // the signature slices exactly as returned (not copies): what a caller keeps and submits later
 	sawRefusal := false
 	for n, o := range c.Ops {
 		tag := fmt.Sprintf("%s hash=%s h=%d op %d (%s) with model index %d", c.Mode, pu.HashName(hf), c.H, n, describe(o), model)
@@ -147,6 +148,7 @@ func runSeq(r *ev.Recorder, c *seqCase) (key, msg string, st stats) {
 					return "index-reused", fmt.Sprintf("%s: emitted index %d after %d", tag, got, emitted[len(emitted)-1]), st
 				}
 				emitted = append(emitted, got)
+				held = append(held, sig)
 				if c.Mode == "real" && c.Hash <= 2 {
 					pk := x.GetPK()
 					if ok, lo := pu.LibXMSSVerify(o.Msg, sig, pk[:]); !ok || !pu.SpecXMSSVerify(o.Msg, sig, pk[:]) {
@@ -164,6 +166,13 @@ func runSeq(r *ev.Recorder, c *seqCase) (key, msg string, st stats) {
 		}
 		if uint64(x.GetIndex()) != model {
 			return "getindex", fmt.Sprintf("%s: GetIndex=%d afterwards, model says %d", tag, x.GetIndex(), model), st
+		}
+		// the signatures handed out earlier are the caller's: their index fields must still be the strictly increasing
+		// sequence they were when returned (a later operation that rewrites them makes two held signatures carry one index)
+		for k, hs := range held {
+			if len(hs) < 4 || binary.BigEndian.Uint32(hs) != emitted[k] {
+				return "returned-signature-rewritten", fmt.Sprintf("%s: afterwards the %d-th signature returned earlier (index %d when returned) carries index field %d", tag, k, emitted[k], binary.BigEndian.Uint32(hs)), st
+			}
 		}
 		if !identity(x).equal(id0) {
 			return "identity-changed", fmt.Sprintf("%s: public key / address / seed / mnemonic reported by the object changed", tag), st
